@@ -257,6 +257,14 @@ func runMux(e *Env) {
 		return
 	}
 
+	// the connections' probes (one second after the handshake, then every five) fall
+	// anywhere in the workload: the session has been idle for a tape-chosen while
+	if faultsOn {
+		if d := []time.Duration{0, 4500 * time.Millisecond, 3 * time.Second, 4900 * time.Millisecond, 4 * time.Second}[tp.Next(5)]; d > 0 {
+			k.SettleUntil(d, 100*time.Millisecond, func() { cl.Process(); cl.DeliverAll() }, func() bool { return false })
+		}
+	}
+
 	// ---- park plan ----
 	if faultsOn {
 		k.DrawPlan([]string{
